@@ -291,7 +291,7 @@ Theorem non_number_error fuel start limit step :
   (fv_num start <> None -> fv_num limit = None -> for_im_val fuel start limit step = FVErrLimit) /\
   (fv_num start <> None -> fv_num limit <> None -> fv_num step = None -> for_im_val fuel start limit step = FVErrStep) /\
   (forall a b c, fv_num start = Some a -> fv_num limit = Some b -> fv_num step = Some c ->
-     for_im_val fuel start limit step = FVRes (for_im fuel a b c)).
+     for_im_val fuel start limit step = FVRes (for_im_gen (fv_is_str start || fv_is_str step) fuel a b c)).
 Proof.
   unfold for_im_val. repeat split.
   - intros ->. reflexivity.
